@@ -133,6 +133,19 @@ def run(chk):
                           {'cmd': l, 'model': m, 'impl': i, 'correspondence': 'Run.run_line compose/parse'}, None, False)
     else:
         chk.violation('model runner does not build: %s' % br.failed_file, {'error': br.error}, None, False)
+    # messages constructed field by field (MySQL initial handshakes over every capability subset and auth-data length, SSL 2.0
+    # hellos): the runner commands compose them, parse the result back with parse_exact_size and compare every field
+    from harness import c06, c09
+    msg_lines = [l for l in c09.gen_lines(rng, chk.tier) if l.startswith('mysqlhs ')]
+    msg_lines += [l for l in c06.gen_lines(rng, impl, 'quick') if l.startswith('ssl2')]
+    nm = 0
+    for l in msg_lines:
+        o = impl.impl_line(l)
+        if o.startswith('LEAK RoundTripError') and nm < 3:
+            nm += 1
+            chk.violation('a constructed message does not survive compose -> parse_exact_size: "%s" gives %s' % (l[:160], o[:80]),
+                          {'cmd': l, 'impl': o, 'predicate': 'constructed-message'}, None, True)
+    chk.coverage['constructed_messages'] = len(msg_lines)
     seen = set()
     for name, v, pred, detail in sweep_originals():
         key = rt.finding_key(family(name), name, pred, 'orig', v)
@@ -165,6 +178,11 @@ def replay(path):
         for p, d in fails:
             print('%s: %s' % (p, d))
         ok = not any(p == r.get('predicate') for p, _ in fails)
+    elif r.get('predicate') == 'constructed-message':
+        from harness import impl
+        o = impl.impl_line(r['cmd'])
+        print('%s -> %s' % (r['cmd'], o))
+        ok = o.startswith('OK ')
     elif 'cmd' in r:
         from harness import impl
         o = impl.impl_line(r['cmd'])
